@@ -86,10 +86,12 @@ Proof.
   destruct (publisher s (reqs s r) rho) as [s1 hdr] eqn:P. cbn [fst] in Hs. subst s1.
   assert (Hd : forall t, doomed (enqueue (set_rstate (with_pub s p n l) r (QDone rho hdr)) (HStep (q_task (reqs s r)))) t
                          <-> doomed s t) by (intros t; apply doomed_deliver; auto).
-  destruct H as [Icalls Ipc Idoom Icensus Irtask Ireq Ireqb Isid Isvc Ipass Iroute Iphase Iwait Icount].
+  destruct H as [Icalls Ipc Idoom Icensus Irtask Ireq Ireqb Ireqo Ibg Isid Isvc Ipass Iroute Iphase Iwait Ibeyond Icount].
   constructor; try assumption.
   - (* doom *) intros t Ht D. apply Hd in D. exact (Idoom t Ht D).
   - (* req *) intros r' Hr'. sproj. unfold fupd. destruct (Nat.eqb_spec r r') as [<-|Hne]; cbn; [discriminate|]. exact (Ireq r' Hr').
+  - (* reqo *) intros t Ht r' Hr'. sproj. unfold fupd. destruct (Nat.eqb_spec r r') as [<-|Hne]; cbn; exact (Ireqo t Ht _ Hr').
+  - (* bg *) intros r' Hr'. sproj. unfold fupd. destruct (Nat.eqb_spec r r') as [<-|Hne]; cbn; exact (Ibg _ Hr').
   - (* svc *) destruct Isvc as [A B]. split; [exact A|]. intros r' Hr'. sproj. unfold fupd.
     destruct (Nat.eqb_spec r r') as [<-|Hne]; cbn; [exact (B r Hr')|exact (B r' Hr')].
   - (* pass *) intros lt Hlt p0 st r0 Hpc. specialize (Ipass lt Hlt p0 st r0 Hpc).
@@ -100,7 +102,7 @@ Proof.
   - (* phase *) revert Iphase. unfold phase_ok. sproj. destruct (calls s); [auto|].
     change (cur (enqueue (set_rstate (with_pub s p n l) r (QDone rho hdr)) (HStep (q_task (reqs s r))))) with (cur s).
     sproj. destruct (kindof s (cur s)); destruct (pcof s (cur s)) as [|now0 todo v r0|? ? ?|? ?|sids lt [e|]|nl [e|]|?|[?|e|]]; auto.
-    + intros (A & B & C & D & E & F & G & I & K). repeat split; auto.
+    + intros (A0 & A & B & C & D & E & F & G & I & K). repeat split; auto.
       * intros k Hk. specialize (F k Hk). lia.
       * unfold resp_fresh in *. sproj. unfold fupd. destruct (Nat.eqb_spec r r0) as [<-|Hne]; cbn.
         -- destruct rho as [m g| | |]; auto. specialize (Hsub m g K). rewrite P in Hsub. cbn [snd fst] in Hsub.
@@ -108,7 +110,9 @@ Proof.
         -- destruct (q_state (reqs s r0)) as [|[m g| | |] [y|]|]; auto. destruct G as [G1 G2]. split; [lia|exact G2].
       * sproj. unfold fupd. destruct (Nat.eqb_spec r r0) as [<-|Hne]; cbn; [discriminate|]. exact I.
       * sproj. unfold fupd. destruct (Nat.eqb_spec r r0) as [<-|Hne]; cbn; auto.
-    + intros (A & B & C). repeat split; auto. destruct C as [C|C]; [now left|right; now apply Hd].
+    + intros Ph. destruct (rtask s); [|exact Ph]. intros X. apply Ph. intros r1 Hr1. specialize (X r1 Hr1).
+      sproj in X. unfold fupd in X. destruct (Nat.eqb_spec r r1) as [E|Hne]; [subst r1|]; exact X.
+    + intros (A0 & A & B & C). repeat split; auto. destruct C as [C|C]; [now left|right; now apply Hd].
 Qed.
 
 (* ---- kernel facts --------------------------------------------------------------------------------------------- *)
@@ -184,8 +188,8 @@ Lemma Inv_call_sub pend s a :
   Inv pend s -> calls s = [] -> Inv (pend ++ [HStep (ntasks s)]) (call s (KSub a)).
 Proof.
   intros H Hc. unfold call, user_busy. rewrite Hc. cbn [existsb]. unfold spawn.
-  destruct H as [Icalls Ipc Idoom Icensus Irtask Ireq Ireqb Isid Isvc Ipass Iroute Iphase Iwait Icount].
-  unfold calls_ok in Icalls. rewrite Hc in Icalls. destruct Icalls as (Hn & Hr & Hs & Hro & Hrt).
+  destruct H as [Icalls Ipc Idoom Icensus Irtask Ireq Ireqb Ireqo Ibg Isid Isvc Ipass Iroute Iphase Iwait Ibeyond Icount].
+  unfold calls_ok in Icalls. rewrite Hc in Icalls. destruct Icalls as (Hn & Hr & Hs & Hro & Hrt & Hgi).
   rewrite Hn in *. cbn [app].
   constructor.
   - unfold calls_ok. sproj. unfold cur; sproj; cbn [last]. rewrite fupd_eq. cbn.
@@ -197,12 +201,15 @@ Proof.
   - sproj. rewrite Hrt. discriminate.
   - sproj. intros r Hr'. lia.
   - intros t Ht. sproj in Ht. assert (t = 0) by lia. subst. sproj. rewrite fupd_eq. cbn. tauto.
+  - intros t Ht. sproj in Ht. assert (t = 0) by lia. subst. sproj. rewrite fupd_eq. cbn. tauto.
+  - sproj. intros r Hr'. lia.
   - sproj. rewrite Hs, Hro. cbn. repeat split; try constructor. intros x [].
   - sproj. rewrite Hro. split; [intros x v []|intros r Hr'; lia].
   - sproj. rewrite Hrt. discriminate.
   - sproj. intros _. rewrite Hro. split; [intros x []|]. rewrite Hrt. discriminate.
-  - unfold phase_ok. sproj. unfold cur; sproj; cbn [last]. rewrite fupd_eq. cbn. auto.
+  - unfold phase_ok. sproj. unfold cur; sproj; cbn [last]. rewrite fupd_eq. cbn. repeat split; auto.
   - intros t Ht. sproj in Ht. assert (t = 0) by lia. subst. sproj. rewrite fupd_eq. cbn. intros h [].
+  - intros t Ht. sproj in Ht. sproj. rewrite fupd_neq by lia. apply Ibeyond. lia.
   - assert (Z : forall p, nchild (pend ++ [HStep 0]) p = 0).
     { intros p. rewrite nchild_app2, nchild_cons. cbn. destruct (handle_eq_dec (HStep 0) (HChild p)); [discriminate|].
       rewrite (nchild_small pend s p); [reflexivity| |lia]. exact Icount. }
@@ -235,7 +242,7 @@ Lemma Inv_call_unsub pend s :
 Proof.
   intros H Hc. unfold call. destruct (user_busy s) eqn:Hb; [now right|left].
   pose proof (user_busy_false s Hb) as Hdone. unfold spawn.
-  destruct H as [Icalls Ipc Idoom Icensus Irtask Ireq Ireqb Isid Isvc Ipass Iroute Iphase Iwait Icount].
+  destruct H as [Icalls Ipc Idoom Icensus Irtask Ireq Ireqb Ireqo Ibg Isid Isvc Ipass Iroute Iphase Iwait Ibeyond Icount].
   set (n := ntasks s).
   set (s' := with_calls (enqueue (with_tasks s (fupd (tasks s) n (mkTask KUnsub PStart false [])) (S n)) (HStep n))
                         (calls s ++ [n])).
@@ -287,6 +294,9 @@ Proof.
     rewrite fupd_neq by lia. exact B.
   - intros t Ht r Hr. subst s'. sproj in Ht. sproj in Hr. sproj. unfold fupd in Hr.
     destruct (Nat.eqb_spec n t) as [<-|]; [destruct Hr|]. eapply Ireqb; [|exact Hr]. lia.
+  - intros t Ht r Hr. subst s'. sproj in Ht. sproj in Hr. sproj. unfold fupd in Hr.
+    destruct (Nat.eqb_spec n t) as [<-|]; [destruct Hr|]. eapply Ireqo; [|exact Hr]. lia.
+  - intros r Hr. subst s'. sproj in Hr. sproj. destruct (Ibg r Hr) as [A B]. rewrite fupd_neq by lia. split; [exact A|lia].
   - exact Isid.
   - exact Isvc.
   - intros lt Hlt p st r Hpc. subst s'. sproj in Hlt. sproj in Hpc. destruct (Irtask lt Hlt) as [A B].
@@ -315,6 +325,7 @@ Proof.
     intros t Ht Hne. rewrite fupd_neq by congruence. apply C. lia.
   - intros t Ht h Hh. subst s'. sproj in Ht. sproj in Hh. unfold fupd in Hh.
     destruct (Nat.eqb_spec n t) as [<-|]; [destruct Hh|]. eapply Iwait; [|exact Hh]. lia.
+  - intros t Ht. subst s'. sproj in Ht. sproj. rewrite fupd_neq by lia. apply Ibeyond. lia.
   - assert (Z : forall p, nchild (pend ++ [HStep n]) p = nchild pend p).
     { intros p. rewrite nchild_app2, nchild_cons. cbn. destruct (handle_eq_dec (HStep n) (HChild p)); [discriminate|]. lia. }
     destruct Icount as [C1 C2]. split.
@@ -345,14 +356,15 @@ Qed.
 
 Lemma phase_loop_step s s' lt k' :
   phase_ok s -> calls_ok s -> rtask s = Some lt -> kindof s lt = KLoop ->
-  calls s' = calls s -> rtask s' = rtask s -> ntasks s' = ntasks s ->
+  calls s' = calls s -> rtask s' = rtask s -> ntasks s' = ntasks s -> svcs s' = svcs s ->
   tasks s' = fupd (tasks s) lt k' -> t_pc k' <> PStart ->
   ((donep s lt \/ doomed s lt) -> (is_done k' = true \/ doomed s' lt)) ->
-  (subs s <> [] \/ ~ (donep s lt \/ doomed s lt) -> True) ->
   (subs s' = subs s /\ routed s' = routed s \/ ~ (donep s lt \/ doomed s lt)) ->
+  nreqs s <= nreqs s' -> (forall r, r < nreqs s -> reqs s' r = reqs s r) ->
+  ((subs s' = subs s /\ routed s' = routed s) \/ (exists r, r < nreqs s' /\ q_bg (reqs s' r) = true)) ->
   phase_ok s'.
 Proof.
-  intros P C Hrt Hk Ec Er En Et Hpc Hdd _ Hsr.
+  intros P C Hrt Hk Ec Er En Es Et Hpc Hdd Hsr Rle Rold Kbg.
   unfold phase_ok in *. rewrite Ec. destruct (calls s) as [|c0 us] eqn:Ecalls; [exact I|].
   assert (Hcur : cur s' = cur s) by (unfold cur; now rewrite Ec, Ecalls).
   assert (Hin : In (cur s) (calls s)) by (apply cur_in; congruence).
@@ -361,9 +373,10 @@ Proof.
   cbv zeta in *. rewrite Hcur, Et, fupd_neq by congruence. rewrite Er, En.
   destruct (kindof s (cur s)); destruct (pcof s (cur s)) as [|now0 todo v r|? ? ?|? ?|sids lt' [e|]|nl [e|]|?|[?|e|]];
     try exact P; try (exfalso; clear - P Hrt; intuition congruence).
-  - rewrite Hrt in *. intros X. rewrite fupd_eq in X. contradiction.
+  - rewrite Hrt in *. intros X. destruct Kbg as [[E1 E2]|(r & Hr & Hb)]; [|rewrite (X r Hr) in Hb; discriminate].
+    unfold all_subscribed in *. rewrite E1, E2, Es. apply P. intros r Hr. rewrite <- Rold by exact Hr. apply X. lia.
   - intros L. specialize (P L). exfalso; clear - P Hrt; intuition congruence.
-  - destruct P as (A & B & D). assert (lt' = lt) by congruence. subst lt'.
+  - destruct P as (A0 & A & B & D). assert (lt' = lt) by congruence. subst lt'.
     destruct Hsr as [[-> _]|Hsr]; [|tauto]. repeat split; auto. rewrite fupd_eq. auto.
 Qed.
 
@@ -383,7 +396,7 @@ Lemma Inv_loop_update pend pend' s s' lt k' :
   (forall r, r < nreqs s -> q_state (reqs s r) = QPending -> q_task (reqs s r) <> lt) ->
   (forall r, nreqs s <= r < nreqs s' ->
              q_task (reqs s' r) = lt /\ awaits (t_pc k') r /\ svc_interesting (svcs s) (q_svc (reqs s' r)) = true) ->
-  (forall r, awaits (t_pc k') r -> r < nreqs s') ->
+  (forall r, awaits (t_pc k') r -> nreqs s <= r < nreqs s') ->
   (* routing *)
   NoDup (dkeys (subs s')) -> NoDup (dkeys (routed s')) -> incl (dkeys (subs s')) (dkeys (routed s')) ->
   (forall x v, In (x, v) (routed s') -> svc_interesting (svcs s) v = true) ->
@@ -391,10 +404,12 @@ Lemma Inv_loop_update pend pend' s s' lt k' :
   (g_inflight s = false ->
    (forall x, In x (dkeys (routed s')) -> In x (dkeys (subs s')) \/ inflight s' x \/ unsub_pending s x) /\
    (forall p r, t_pc k' = PPass p StRenew r -> ~ doomed s' lt)) ->
+  ((subs s' = subs s /\ routed s' = routed s) \/ (exists r, r < nreqs s' /\ q_bg (reqs s' r) = true)) ->
+  (forall r, nreqs s <= r < nreqs s' -> q_bg (reqs s' r) = true) ->
   Inv pend' s'.
 Proof.
-  intros H Hrt Ec Er En Es Eg Et Kk Kpc Knot Kw Kdd Ksr Kch Rle Rold Rown Rnew Rb Ns Nr Ninc Nsvc Kpass Kroute.
-  destruct H as [Icalls Ipc Idoom Icensus Irtask Ireq Ireqb Isid Isvc Ipass Iroute Iphase Iwait Icount].
+  intros H Hrt Ec Er En Es Eg Et Kk Kpc Knot Kw Kdd Ksr Kch Rle Rold Rown Rnew Rb Ns Nr Ninc Nsvc Kpass Kroute Kbg Kbgn.
+  destruct H as [Icalls Ipc Idoom Icensus Irtask Ireq Ireqb Ireqo Ibg Isid Isvc Ipass Iroute Iphase Iwait Ibeyond Icount].
   destruct (Irtask lt Hrt) as [Hlt Hkl].
   assert (Hnc : ~ In lt (calls s)) by (apply rtask_not_call; assumption).
   assert (Told : forall t, t <> lt -> tasks s' t = tasks s t) by (intros t Ht; rewrite Et; apply fupd_neq; congruence).
@@ -408,7 +423,7 @@ Proof.
       (rewrite Rold; [tauto|]; eapply Ireqb; [exact Ht|]; rewrite Epc; reflexivity). }
   constructor.
   - (* calls *) unfold calls_ok in *. rewrite Ec, En. destruct (calls s) as [|c0 us] eqn:Ecalls.
-    + rewrite Irtask_none. all: exfalso; destruct Icalls as (_ & _ & _ & _ & X); congruence.
+    + exfalso; destruct Icalls as (_ & _ & _ & _ & X & _); congruence.
     + destruct Icalls as (K0 & Kus & Klt & Kdone & Knd). rewrite Kind. split; [exact K0|].
       split; [intros u Hu; rewrite Kind; now apply Kus|]. split; [exact Klt|]. split; [|exact Knd].
       intros t Ht Hne. rewrite Hcur in Hne. rewrite Told; [now apply Kdone|]. intros ->. contradiction.
@@ -428,26 +443,33 @@ Proof.
       rewrite Told; [exact B|]. now apply Rown.
     + destruct (Rnew r (conj Hhi Hr)) as (A & B & _). rewrite A, Tnew. split; [exact Hlt|exact B].
   - (* reqb *) intros t Ht r Hr. rewrite En in Ht. destruct (Nat.eq_dec t lt) as [->|Hne].
-    + rewrite Tnew in Hr. now apply Rb.
+    + rewrite Tnew in Hr. apply Rb in Hr. lia.
     + rewrite Told in Hr by assumption. specialize (Ireqb t Ht r Hr). lia.
+  - (* reqo *) intros t Ht r Hr. rewrite En in Ht. destruct (Nat.eq_dec t lt) as [->|Hne].
+    + rewrite Tnew in Hr. now destruct (Rnew r (Rb r Hr)).
+    + rewrite Told in Hr by assumption. rewrite Rold by (eapply Ireqb; eauto). now apply Ireqo.
+  - (* bg *) intros r Hr. rewrite En. destruct (Nat.lt_ge_cases r (nreqs s)) as [Hlo|Hhi].
+    + rewrite Rold by assumption. destruct (Ibg r Hlo) as [A B]. split; [|exact B]. rewrite A. unfold is_loop. now rewrite Kind.
+    + destruct (Rnew r (conj Hhi Hr)) as (A & _). rewrite A, Tnew. split; [|exact Hlt]. rewrite (Kbgn r (conj Hhi Hr)). unfold is_loop. now rewrite Kk.
   - (* sid *) auto.
   - (* svc *) rewrite Es. split; [exact Nsvc|]. intros r Hr. destruct (Nat.lt_ge_cases r (nreqs s)) as [Hlo|Hhi].
     + rewrite Rold by assumption. now apply Isvc.
     + now destruct (Rnew r (conj Hhi Hr)) as (_ & _ & X).
-  - (* pass *) intros lt' Hlt'. rewrite Er in Hlt'. assert (lt' = lt) by congruence. subst. exact Kpass.
+  - (* pass *) intros lt' Hlt'. rewrite Er in Hlt'. assert (lt' = lt) by congruence. subst lt'. exact Kpass.
   - (* route *) intros G. rewrite Eg in G. destruct (Kroute G) as [R1 R2]. split.
     + intros x Hx. destruct (R1 x Hx) as [A|[A|A]]; [now left|right; now left|right; right].
       unfold unsub_pending in *. rewrite Hcur, En.
       assert (Hcl : cur s <> lt).
       { intros E. apply Hnc. rewrite <- E. apply cur_in. intros Z. unfold calls_ok in Icalls. rewrite Z in Icalls.
-        destruct Icalls as (_ & _ & _ & _ & Y). congruence. }
+        destruct Icalls as (_ & _ & _ & _ & Y & _). congruence. }
       rewrite (Told _ Hcl). destruct A as [A|(t & A1 & A2 & A3)]; [now left|right].
       exists t. assert (t <> lt) by (intros ->; congruence). rewrite Told by assumption. auto.
-    + intros lt' p r Hlt' Hpc. rewrite Er in Hlt'. assert (lt' = lt) by congruence. subst. rewrite Tnew in Hpc. eapply R2; eauto.
+    + intros lt' p r Hlt' Hpc. rewrite Er in Hlt'. assert (lt' = lt) by congruence. subst lt'. rewrite Tnew in Hpc. eapply R2; eauto.
   - (* phase *) eapply phase_loop_step with (lt := lt) (k' := k'); eauto.
   - (* wait *) intros t Ht h Hh. rewrite En in Ht. destruct (Nat.eq_dec t lt) as [->|Hne].
     + rewrite Tnew in Hh. now apply Kw.
     + rewrite Told in Hh by assumption. eapply Iwait; eauto.
+  - (* beyond *) intros t Ht. rewrite En in Ht. rewrite Told by lia. now apply Ibeyond.
   - (* count *) eapply count_ok_ext with (pend := pend); [exact Kch|].
     destruct Icount as [C1 C2]. split; [intros p Hp; rewrite En; now apply C1|].
     rewrite Ec, Hcur. intros Hc Hd.
@@ -455,7 +477,813 @@ Proof.
     rewrite (Told _ Hcl) in *. specialize (C2 Hc Hd).
     assert (Hkid : forall t c, is_kid c (tasks s' t) = is_kid c (tasks s t)) by (intros t c; unfold is_kid; now rewrite Kind).
     destruct (pcof s (cur s)); try (destruct C2 as [C2 C3]; split; [intros t Ht; rewrite Hkid; apply C2; lia|exact C3]).
-    rewrite (nlive_ext s' s); [exact C2|exact En|]. intros t Ht. unfold live_kid. rewrite Hkid.
+    rewrite (nlive_ext s s'); [exact C2|exact En|]. intros t Ht. unfold live_kid. rewrite Hkid.
     destruct (Nat.eq_dec t lt) as [->|Hne]; [|now rewrite Told].
     unfold is_kid. rewrite Hkl. reflexivity.
+Qed.
+
+(* ---- the for loop of a renewal pass, in the domain ------------------------------------------------------------ *)
+Definition susp_state (b : state) (t : tid) (pn : Z) (nf : bool) (x : sid) (d : Z) (v : svc) (rest : list (sid * Z)) : state :=
+  set_pc (issue (with_subs b (ddel Nat.eqb (subs b) x)) t QRenew v (Some x)) t
+         (PPass (mkPass pn rest x d v nf) StRenew (nreqs b)).
+
+Notation nget_none := (dget_None_notin Nat.eqb Nat.eqb_spec).
+Notation nin_get := (In_dkeys_dget Nat.eqb Nat.eqb_spec).
+Notation nget_set := (dget_dset Nat.eqb Nat.eqb_spec).
+Notation nget_del := (dget_ddel Nat.eqb Nat.eqb_spec).
+Notation nin_del := (In_dkeys_ddel Nat.eqb Nat.eqb_spec).
+Notation nin_set := (In_dkeys_dset Nat.eqb Nat.eqb_spec).
+Notation nnd_set := (NoDup_dset Nat.eqb Nat.eqb_spec).
+Notation nnd_del := (NoDup_ddel Nat.eqb).
+
+Lemma dhas_in (A : Type) (d : list (nat * A)) k : In k (dkeys d) -> dhas Nat.eqb d k = true.
+Proof.
+  intros H. unfold dhas. destruct (dget Nat.eqb d k) eqn:E; [reflexivity|].
+  apply nget_none in E. contradiction.
+Qed.
+
+Lemma pass_scan_dom b t pn nf todo :
+  (forall x, In x (map fst todo) -> In x (dkeys (subs b))) ->
+  incl (dkeys (subs b)) (dkeys (routed b)) ->
+  pass_scan b t pn nf todo = ODone b \/
+  exists pre x d v rest,
+    todo = pre ++ (x, d) :: rest /\ dget Nat.eqb (routed b) x = Some v /\ In x (dkeys (subs b)) /\
+    pass_scan b t pn nf todo = OSusp (susp_state b t pn nf x d v rest).
+Proof.
+  induction todo as [|[x d] r IH]; intros Hin Hinc; cbn [pass_scan]; [now left|].
+  destruct (d <? pn - TOL)%Z.
+  - destruct IH as [IH|(pre & x' & d' & v & rest & E & A & B & C)]; [intros y Hy; apply Hin; now right|exact Hinc|now left|].
+    right. exists ((x, d) :: pre), x', d', v, rest. subst r. repeat split; auto.
+  - assert (Hx : In x (dkeys (subs b))) by (apply Hin; now left).
+    rewrite (dhas_in _ _ _ Hx). cbn [negb]. sproj.
+    assert (Hr : In x (dkeys (routed b))) by (now apply Hinc).
+    destruct (dget Nat.eqb (routed b) x) as [v|] eqn:E.
+    + right. exists [], x, d, v, r. auto.
+    + apply nget_none in E. contradiction.
+Qed.
+
+Record Base (s b : state) : Prop := mkBase {
+  b_tasks : tasks b = tasks s; b_ntasks : ntasks b = ntasks s; b_calls : calls b = calls s; b_rtask : rtask b = rtask s;
+  b_svcs : svcs b = svcs s; b_gin : g_inflight b = g_inflight s; b_reqs : reqs b = reqs s; b_nreqs : nreqs b = nreqs s;
+  b_ready : ready b = ready s;
+  b_nd1 : NoDup (dkeys (subs b)); b_nd2 : NoDup (dkeys (routed b)); b_inc : incl (dkeys (subs b)) (dkeys (routed b));
+  b_svc : forall x v, In (x, v) (routed b) -> svc_interesting (svcs s) v = true;
+  b_route : g_inflight s = false -> forall x, In x (dkeys (routed b)) -> In x (dkeys (subs b)) \/ unsub_pending s x;
+  b_bg : (subs b = subs s /\ routed b = routed s) \/ (exists r, r < nreqs s /\ q_bg (reqs s r) = true)
+}.
+
+Lemma finish_plain s t st :
+  (forall p x, kindof s t <> KOne p x) ->
+  finish s t st = with_ready (with_tasks s (fupd (tasks s) t (mkTask (kindof s t) (PDone st) false [])) (ntasks s))
+                             (ready s ++ t_waiters (tasks s t)).
+Proof.
+  intros H. unfold finish. rewrite fold_enqueue. destruct (kindof s t) eqn:E; try reflexivity. now destruct (H parent x).
+Qed.
+
+Lemma nchild_steps l c : (forall h, In h l -> exists u, h = HStep u) -> nchild l c = 0.
+Proof.
+  induction l as [|h l IH]; intros H; [reflexivity|]. rewrite nchild_cons.
+  destruct (H h (or_introl eq_refl)) as [u ->]. destruct (handle_eq_dec (HStep u) (HChild c)); [discriminate|].
+  apply IH. intros h' Hh'. apply H. now right.
+Qed.
+
+Lemma not_doomed_must s t : ~ doomed s t -> t_must (tasks s t) = false.
+Proof. intros H. destruct (t_must (tasks s t)) eqn:E; [|reflexivity]. exfalso. apply H. now left. Qed.
+
+(* the pass suspends on the renewal of x *)
+Lemma Inv_susp pend pend' s b lt pn x d v rest :
+  Inv pend s -> rtask s = Some lt -> ~ donep s lt -> ~ doomed s lt ->
+  (forall r, r < nreqs s -> q_state (reqs s r) = QPending -> q_task (reqs s r) <> lt) ->
+  Base s b ->
+  dget Nat.eqb (routed b) x = Some v -> In x (dkeys (subs b)) ->
+  NoDup (x :: map fst rest) -> (forall y, In y (map fst rest) -> In y (dkeys (subs b))) ->
+  (forall c, nchild pend' c = nchild pend c) ->
+  Inv pend' (susp_state b lt pn true x d v rest).
+Proof.
+  intros H Hrt Hnd Hndm Hown B Hv Hx Hnodup Hrest Hch.
+  pose proof H as H0.
+  destruct H as [Icalls Ipc Idoom Icensus Irtask Ireq Ireqb Ireqo Ibg Isid Isvc Ipass Iroute Iphase Iwait Ibeyond Icount].
+  destruct (Irtask lt Hrt) as [Hlt Hkl]. destruct B.
+  pose proof (not_doomed_must _ _ Hndm) as Hmust.
+  assert (Hxr : In x (dkeys (routed b))) by (apply nin_get; congruence).
+  assert (Hxv : In (x, v) (routed b)) by (now apply (dget_In Nat.eqb Nat.eqb_spec)).
+  inversion Hnodup as [|? ? Hxn Hrn]; subst.
+  unfold susp_state.
+  eapply Inv_loop_update with (s := s) (lt := lt)
+    (k' := mkTask KLoop (PPass (mkPass pn rest x d v true) StRenew (nreqs s)) false (t_waiters (tasks s lt)));
+    try eassumption; sproj; unfold issue; sproj; try assumption; try reflexivity.
+  - rewrite b_tasks0, b_nreqs0, Hkl, Hmust. reflexivity.
+  - discriminate.
+  - intros h Hh. eapply Iwait; eauto.
+  - intros X. tauto.
+  - right. tauto.
+  - rewrite b_nreqs0. lia.
+  - intros r Hr. rewrite b_reqs0, b_nreqs0. apply fupd_neq. lia.
+  - intros r Hr. rewrite b_nreqs0 in Hr. assert (r = nreqs s) by lia. subst r.
+    rewrite b_nreqs0, fupd_eq. cbn. repeat split; auto. eapply b_svc0; eauto.
+  - intros r Hr. cbn in Hr. rewrite b_nreqs0. lia.
+  - now apply nnd_del.
+  - intros y Hy. apply nin_del in Hy; [|assumption]. apply b_inc0. tauto.
+  - (* pass_ok *) intros p st r Hpc. sproj in Hpc. rewrite fupd_eq in Hpc. cbn in Hpc. injection Hpc as <- <- <-. cbn [p_sid p_todo p_svc].
+    sproj. rewrite ?b_svcs0.
+    split; [intros X; apply nin_del in X; [tauto|assumption]|]. split; [auto|]. split; [discriminate|].
+    split; [|split; [assumption|split; [assumption|eapply b_svc0; eauto]]].
+    intros _ y Hy. apply nin_del; [assumption|]. split; [intros ->; contradiction|now apply Hrest].
+  - (* route *) intros G. split.
+    + intros y Hy. destruct (b_route0 G y Hy) as [A|A]; [|now right; right].
+      destruct (Nat.eq_dec y x) as [->|Hne].
+      * right; left. exists lt, (mkPass pn rest x d v true), (nreqs s). sproj. rewrite b_rtask0, fupd_eq. cbn. auto.
+      * left. apply nin_del; [assumption|]. tauto.
+    + intros p r _ D. unfold doomed in D. sproj in D. rewrite fupd_eq in D. cbn in D. rewrite b_nreqs0, fupd_eq in D. cbn in D.
+      rewrite b_tasks0, Hmust in D. destruct D; discriminate.
+  - right. exists (nreqs b). split; [lia|]. rewrite fupd_eq. cbn. unfold is_loop. now rewrite b_tasks0, Hkl.
+  - intros r Hr. rewrite b_nreqs0 in *. assert (r = nreqs s) by lia. subst r. rewrite fupd_eq. cbn. unfold is_loop. now rewrite b_tasks0, Hkl.
+Qed.
+
+Lemma Base_ghost s b o : Base s b -> Base s (with_ghost b o (g_inflight b) (g_maxdur b)).
+Proof. intros []. constructor; assumption. Qed.
+
+Lemma NoDup_app_mid {A} (pre : list A) x rest : NoDup (pre ++ x :: rest) -> NoDup (x :: rest).
+Proof. induction pre as [|a pre IH]; cbn; intros H; [exact H|]. inversion H; auto. Qed.
+
+Lemma Inv_loop_finish pend pend' s b lt :
+  Inv pend s -> rtask s = Some lt -> ~ donep s lt -> ~ doomed s lt ->
+  (forall r, r < nreqs s -> q_state (reqs s r) = QPending -> q_task (reqs s r) <> lt) ->
+  Base s b -> subs b = [] ->
+  (forall c, nchild pend' c = nchild pend c) ->
+  Inv pend' (with_ready (with_tasks b (fupd (tasks b) lt (mkTask KLoop (PDone (SRet None)) false [])) (ntasks b))
+                        (ready b ++ t_waiters (tasks b lt))).
+Proof.
+  intros H Hrt Hnd Hndm Hown B Esubs Hch.
+  pose proof H as H0.
+  destruct H as [Icalls Ipc Idoom Icensus Irtask Ireq Ireqb Ireqo Ibg Isid Isvc Ipass Iroute Iphase Iwait Ibeyond Icount].
+  destruct (Irtask lt Hrt) as [Hlt Hkl]. destruct B.
+  eapply Inv_loop_update with (s := s) (lt := lt) (k' := mkTask KLoop (PDone (SRet None)) false []);
+    try eassumption; sproj; try assumption; try reflexivity.
+  - now rewrite b_tasks0.
+  - discriminate.
+  - intros h [].
+  - intros _. now left.
+  - right. tauto.
+  - rewrite b_nreqs0. lia.
+  - intros r _. now rewrite b_reqs0.
+  - intros r Hr. rewrite b_nreqs0 in Hr. lia.
+  - intros r [].
+  - intros p st r Hpc. sproj in Hpc. rewrite fupd_eq in Hpc. discriminate.
+  - intros G. split.
+    + intros y Hy. destruct (b_route0 G y Hy) as [A|A]; [rewrite Esubs in A; destruct A|now right; right].
+    + intros p r Hpc. discriminate.
+  - rewrite b_nreqs0, b_reqs0. exact b_bg0.
+  - intros r Hr. rewrite b_nreqs0 in Hr. lia.
+Qed.
+
+Lemma Inv_loop_sleep pend pend' s b lt w :
+  Inv pend s -> rtask s = Some lt -> ~ donep s lt -> ~ doomed s lt ->
+  (forall r, r < nreqs s -> q_state (reqs s r) = QPending -> q_task (reqs s r) <> lt) ->
+  Base s b ->
+  (forall c, nchild pend' c = nchild pend c) ->
+  Inv pend' (set_pc b lt (PSleep w WPending)).
+Proof.
+  intros H Hrt Hnd Hndm Hown B Hch.
+  pose proof H as H0.
+  destruct H as [Icalls Ipc Idoom Icensus Irtask Ireq Ireqb Ireqo Ibg Isid Isvc Ipass Iroute Iphase Iwait Ibeyond Icount].
+  destruct (Irtask lt Hrt) as [Hlt Hkl]. destruct B.
+  pose proof (not_doomed_must _ _ Hndm) as Hmust.
+  eapply Inv_loop_update with (s := s) (lt := lt) (k' := mkTask KLoop (PSleep w WPending) false (t_waiters (tasks s lt)));
+    try eassumption; sproj; try assumption; try reflexivity.
+  - now rewrite b_tasks0, Hkl, Hmust.
+  - discriminate.
+  - intros h Hh. eapply Iwait; eauto.
+  - tauto.
+  - right. tauto.
+  - rewrite b_nreqs0. lia.
+  - intros r _. now rewrite b_reqs0.
+  - intros r Hr. rewrite b_nreqs0 in Hr. lia.
+  - intros r [].
+  - intros p st r Hpc. sproj in Hpc. rewrite fupd_eq in Hpc. discriminate.
+  - intros G. split.
+    + intros y Hy. destruct (b_route0 G y Hy) as [A|A]; [now left|now right; right].
+    + intros p r Hpc. discriminate.
+  - rewrite b_nreqs0, b_reqs0. exact b_bg0.
+  - intros r Hr. rewrite b_nreqs0 in Hr. lia.
+Qed.
+
+Lemma Inv_run_pass pend rest0 s b lt :
+  Inv pend s -> rtask s = Some lt -> ~ donep s lt -> ~ doomed s lt ->
+  (forall r, r < nreqs s -> q_state (reqs s r) = QPending -> q_task (reqs s r) <> lt) ->
+  Base s b ->
+  (forall c, nchild (rest0 ++ ready s) c = nchild pend c) ->
+  (exists b1, run_pass b lt = ODone b1 /\ subs b1 = subs b /\ Base s b1) \/
+  (exists s', run_pass b lt = OSusp s' /\ Inv (rest0 ++ ready s') s').
+Proof.
+  intros H Hrt Hnd Hndm Hown B Hch. unfold run_pass.
+  set (b1 := with_ghost b _ _ _).
+  assert (B1 : Base s b1) by (apply Base_ghost; exact B).
+  destruct (pass_scan_dom b1 lt (now b1) true (subs b1)) as [E|(pre & x & d & v & rest & E1 & E2 & E3 & E4)].
+  - intros y Hy. exact Hy.
+  - destruct B1; assumption.
+  - left. exists b1. auto.
+  - right. eexists. split; [exact E4|].
+    assert (ND : NoDup (map fst (subs b1))) by (destruct B1; assumption).
+    rewrite E1, map_app in ND. cbn [map fst] in ND. apply NoDup_app_mid in ND.
+    eapply Inv_susp; try eassumption.
+    + intros y Hy. unfold dkeys. rewrite E1, map_app. apply in_app_iff. right. now right.
+    + intros c. unfold susp_state, issue. subst b1. sproj. destruct B. rewrite b_ready0. apply Hch.
+Qed.
+
+(* `while self._subscriptions:` entered with the renewal task not cancelled *)
+Lemma loop_head_dom pend rest0 s b lt fuel :
+  Inv pend s -> rtask s = Some lt -> ~ donep s lt -> ~ doomed s lt ->
+  (forall r, r < nreqs s -> q_state (reqs s r) = QPending -> q_task (reqs s r) <> lt) ->
+  Base s b ->
+  (forall c, nchild (rest0 ++ ready s) c = nchild pend c) ->
+  diverged (loop_head fuel b lt) = true \/ Inv (rest0 ++ ready (loop_head fuel b lt)) (loop_head fuel b lt).
+Proof.
+  intros H Hrt Hnd Hndm Hown B Hch.
+  assert (Hkl : kindof s lt = KLoop) by (apply (iv_rtask _ _ H lt Hrt)).
+  assert (Hw : forall h, In h (t_waiters (tasks s lt)) -> exists u, h = HStep u).
+  { intros h Hh. eapply (iv_wait _ _ H); [|exact Hh]. apply (iv_rtask _ _ H lt Hrt). }
+  assert (Hfin : subs b = [] -> Inv (rest0 ++ ready (finish b lt (SRet None))) (finish b lt (SRet None))).
+  { intros Es. destruct B as [Bt]. rewrite finish_plain by (rewrite Bt, Hkl; discriminate). rewrite Bt, Hkl. rewrite <- Bt.
+    eapply Inv_loop_finish; try eassumption; [constructor; assumption|].
+    intros c. sproj. rewrite b_ready0, app_assoc, nchild_app2, Bt, (nchild_steps _ c Hw), Hch. lia. }
+  assert (Hsl : forall w, Inv (rest0 ++ ready (set_pc b lt (PSleep w WPending))) (set_pc b lt (PSleep w WPending))).
+  { intros w. eapply Inv_loop_sleep; try eassumption. intros c. sproj. destruct B. rewrite b_ready0. apply Hch. }
+  destruct fuel as [|f]; cbn [loop_head].
+  - destruct (subs b) as [|e0 l0] eqn:Esubs; [right; now apply Hfin|]. rewrite <- Esubs.
+    destruct (0 <? _)%Z; [right; apply Hsl|].
+    destruct (Inv_run_pass pend rest0 s b lt H Hrt Hnd Hndm Hown B Hch) as [(b1 & E & Es & B1)|(s' & E & I')]; rewrite E.
+    + left. rewrite Es, Nat.ltb_irrefl. reflexivity.
+    + now right.
+  - destruct (subs b) as [|e0 l0] eqn:Esubs; [right; now apply Hfin|]. rewrite <- Esubs.
+    destruct (0 <? _)%Z; [right; apply Hsl|].
+    destruct (Inv_run_pass pend rest0 s b lt H Hrt Hnd Hndm Hown B Hch) as [(b1 & E & Es & B1)|(s' & E & I')]; rewrite E.
+    + left. rewrite Es, Nat.ltb_irrefl. reflexivity.
+    + now right.
+Qed.
+
+(* the rest of a pass after a response has been processed, then the loop *)
+Lemma loop_tail pend rest0 s b lt pn todo :
+  Inv pend s -> rtask s = Some lt -> ~ donep s lt -> ~ doomed s lt ->
+  (forall r, r < nreqs s -> q_state (reqs s r) = QPending -> q_task (reqs s r) <> lt) ->
+  Base s b -> NoDup (map fst todo) -> (forall y, In y (map fst todo) -> In y (dkeys (subs b))) ->
+  (forall c, nchild (rest0 ++ ready s) c = nchild pend c) ->
+  let s' := after_pass_loop lt (pass_scan b lt pn true todo) in
+  diverged s' = true \/ Inv (rest0 ++ ready s') s'.
+Proof.
+  intros H Hrt Hnd Hndm Hown B ND Hin Hch. cbv zeta.
+  destruct (pass_scan_dom b lt pn true todo Hin) as [E|(pre & x & d & v & rest & E1 & E2 & E3 & E4)].
+  - destruct B; assumption.
+  - rewrite E. cbn [after_pass_loop]. eapply loop_head_dom; eassumption.
+  - rewrite E4. cbn [after_pass_loop]. right.
+    rewrite E1, map_app in ND. cbn [map fst] in ND. apply NoDup_app_mid in ND.
+    eapply Inv_susp; try eassumption.
+    + intros y Hy. apply Hin. rewrite E1, map_app. apply in_app_iff. right. now right.
+    + intros c. unfold susp_state, issue. sproj. destruct B. rewrite b_ready0. apply Hch.
+Qed.
+
+Lemma Base_self pend s lt :
+  Inv pend s -> rtask s = Some lt -> (forall p r, pcof s lt <> PPass p StRenew r) -> Base s s.
+Proof.
+  intros H Hrt Hpc. destruct (iv_sid _ _ H) as (A & B & C). destruct (iv_svc _ _ H) as [D _].
+  constructor; auto. intros G x Hx. destruct (iv_route _ _ H G) as [R _]. destruct (R x Hx) as [X|[X|X]]; auto.
+  destruct X as (lt' & p & r & X1 & X2 & _). assert (lt' = lt) by congruence. subst. now destruct (Hpc p r).
+Qed.
+
+Lemma own_none pend s lt :
+  Inv pend s -> (forall r, ~ awaits (pcof s lt) r \/ q_state (reqs s r) <> QPending) ->
+  forall r, r < nreqs s -> q_state (reqs s r) = QPending -> q_task (reqs s r) <> lt.
+Proof.
+  intros H Hno r Hr Hq E. destruct (iv_req _ _ H r Hr Hq) as [_ A]. rewrite E in A. destruct (Hno r); auto.
+Qed.
+
+(* the renewal task starts *)
+Lemma Inv_loop_start pend rest0 s lt :
+  Inv pend s -> rtask s = Some lt -> pcof s lt = PStart -> t_must (tasks s lt) = false ->
+  (forall c, nchild (rest0 ++ ready s) c = nchild pend c) ->
+  let s' := loop_head (length (subs s)) s lt in
+  diverged s' = true \/ Inv (rest0 ++ ready s') s'.
+Proof.
+  intros H Hrt Hpc Hm Hch. cbv zeta. eapply loop_head_dom; try eassumption.
+  - unfold is_done. rewrite Hpc. discriminate.
+  - unfold doomed. rewrite Hpc, Hm. intuition discriminate.
+  - eapply own_none; [eassumption|]. intros r. left. rewrite Hpc. cbn. tauto.
+  - eapply Base_self; try eassumption. intros p r. rewrite Hpc. discriminate.
+Qed.
+
+(* the renewal task wakes up from its sleep *)
+Lemma Inv_loop_wake pend rest0 s lt w :
+  Inv pend s -> rtask s = Some lt -> pcof s lt = PSleep w WDone -> t_must (tasks s lt) = false ->
+  (forall c, nchild (rest0 ++ ready s) c = nchild pend c) ->
+  let s' := after_pass_loop lt (run_pass s lt) in
+  diverged s' = true \/ Inv (rest0 ++ ready s') s'.
+Proof.
+  intros H Hrt Hpc Hm Hch. cbv zeta.
+  assert (Hnd : ~ donep s lt) by (unfold is_done; rewrite Hpc; discriminate).
+  assert (Hndm : ~ doomed s lt) by (unfold doomed; rewrite Hpc, Hm; intuition discriminate).
+  assert (Hown : forall r, r < nreqs s -> q_state (reqs s r) = QPending -> q_task (reqs s r) <> lt).
+  { eapply own_none; [eassumption|]. intros r. left. rewrite Hpc. cbn. tauto. }
+  assert (B : Base s s) by (eapply Base_self; try eassumption; intros p r; rewrite Hpc; discriminate).
+  destruct (Inv_run_pass pend rest0 s s lt H Hrt Hnd Hndm Hown B Hch) as [(b1 & E & Es & B1)|(s' & E & I')]; rewrite E;
+    cbn [after_pass_loop].
+  - eapply loop_head_dom; eassumption.
+  - now right.
+Qed.
+
+(* ---- dictionary entries after an update ------------------------------------------------------------------------ *)
+Notation nin_dget := (In_dget Nat.eqb Nat.eqb_spec).
+Notation ndget_in := (dget_In Nat.eqb Nat.eqb_spec).
+
+Lemma In_dset_inv (A : Type) (d : list (nat * A)) x v k w :
+  NoDup (dkeys d) -> In (k, w) (dset Nat.eqb d x v) -> (k = x /\ w = v) \/ In (k, w) d.
+Proof.
+  intros ND Hin. apply nin_dget in Hin; [|now apply nnd_set]. rewrite nget_set in Hin.
+  destruct (Nat.eqb_spec x k) as [<-|Hne]; [left; split; congruence|right; now apply ndget_in].
+Qed.
+Lemma In_ddel_inv (A : Type) (d : list (nat * A)) x k w :
+  NoDup (dkeys d) -> In (k, w) (ddel Nat.eqb d x) -> In (k, w) d.
+Proof.
+  intros ND Hin. apply nin_dget in Hin; [|now apply nnd_del]. rewrite nget_del in Hin by assumption.
+  destruct (Nat.eqb x k); [discriminate|now apply ndget_in].
+Qed.
+
+(* the renewal task is cancelled *)
+Lemma Inv_loop_cancelled pend pend' s lt :
+  Inv pend s -> lt < ntasks s -> kindof s lt = KLoop -> ~ donep s lt -> doomed s lt ->
+  (forall r, awaits (pcof s lt) r -> q_state (reqs s r) <> QPending) ->
+  (forall c, nchild pend' c = nchild pend c) ->
+  Inv pend' (with_ready (with_tasks s (fupd (tasks s) lt (mkTask KLoop (PDone SCancelled) false [])) (ntasks s))
+                        (ready s ++ t_waiters (tasks s lt))).
+Proof.
+  intros H Hlt Hkl Hnd Hdm Hnp Hch.
+  assert (Hrt : rtask s = Some lt).
+  { pose proof (iv_census _ _ H lt Hlt) as C. unfold census in C. rewrite Hkl in C. destruct C; [assumption|contradiction]. }
+  destruct (iv_sid _ _ H) as (S1 & S2 & S3). destruct (iv_svc _ _ H) as [V1 V2].
+  eapply Inv_loop_update with (s := s) (lt := lt) (k' := mkTask KLoop (PDone SCancelled) false []);
+    try eassumption; sproj; try assumption; try reflexivity; auto.
+  - discriminate.
+  - intros h [].
+  - intros r Hr Hq E. destruct (iv_req _ _ H r Hr Hq) as [_ A]. rewrite E in A. now apply (Hnp r).
+  - intros r Hr. lia.
+  - intros r [].
+  - intros p st r Hpc. sproj in Hpc. rewrite fupd_eq in Hpc. discriminate.
+  - intros G. destruct (iv_route _ _ H G) as [R1 R2]. split.
+    + intros x Hx. destruct (R1 x Hx) as [A|[A|A]]; [now left| |now right; right].
+      exfalso. destruct A as (lt' & p & r & A1 & A2 & _). assert (lt' = lt) by congruence. subst. eapply R2; eauto.
+    + intros p r Hpc. discriminate.
+  - intros r Hr. lia.
+Qed.
+
+(* the renewal task receives the response it was waiting for *)
+Lemma Inv_loop_resume pend rest0 s lt p st r rho hdr :
+  Inv pend s -> rtask s = Some lt -> pcof s lt = PPass p st r -> q_state (reqs s r) = QDone rho hdr ->
+  t_must (tasks s lt) = false ->
+  (forall c, nchild (rest0 ++ ready s) c = nchild pend c) ->
+  let s' := after_pass_loop lt (pass_resume s lt p st rho hdr) in
+  diverged s' = true \/ Inv (rest0 ++ ready s') s'.
+Proof.
+  intros H Hrt Hpc Hq Hm Hch. cbv zeta.
+  destruct (iv_rtask _ _ H lt Hrt) as [Hlt Hkl].
+  assert (Hnd : ~ donep s lt) by (unfold is_done; rewrite Hpc; discriminate).
+  assert (Hndm : ~ doomed s lt) by (unfold doomed; rewrite Hpc, Hm, Hq; intuition discriminate).
+  assert (Hown : forall r', r' < nreqs s -> q_state (reqs s r') = QPending -> q_task (reqs s r') <> lt).
+  { eapply own_none; [eassumption|]. intros r'. rewrite Hpc. cbn. destruct (Nat.eq_dec r r') as [<-|]; [right; congruence|now left]. }
+  pose proof (iv_pc _ _ H lt Hlt) as Hpcok. unfold pc_ok in Hpcok. rewrite Hkl, Hpc in Hpcok.
+  destruct (iv_pass _ _ H lt Hrt p st r Hpc) as (P1 & P2 & P3 & P4 & P5 & P6 & P7).
+  specialize (P4 Hndm).
+  destruct (iv_sid _ _ H) as (S1 & S2 & S3). destruct (iv_svc _ _ H) as [V1 V2].
+  assert (Hroute : g_inflight s = false -> forall y, In y (dkeys (routed s)) ->
+                   In y (dkeys (subs s)) \/ (st = StRenew /\ y = p_sid p) \/ unsub_pending s y).
+  { intros G y Hy. destruct (iv_route _ _ H G) as [R1 _]. destruct (R1 y Hy) as [A|[A|A]]; auto.
+    destruct A as (lt' & p' & r' & A1 & A2 & A3). assert (lt' = lt) by congruence. subst lt'. rewrite Hpc in A2.
+    injection A2 as <- <- <-. right; left. auto. }
+  assert (Hbgr : exists r0, r0 < nreqs s /\ q_bg (reqs s r0) = true).
+  { exists r. assert (A : awaits (pcof s lt) r) by (rewrite Hpc; reflexivity).
+    pose proof (iv_reqb _ _ H lt Hlt r A) as Hr. split; [exact Hr|].
+    destruct (iv_bg _ _ H r Hr) as [B _]. rewrite B, (iv_reqo _ _ H lt Hlt r A). unfold is_loop. now rewrite Hkl. }
+  unfold pass_resume. cbv zeta. set (x := p_sid p) in *. set (v := p_svc p) in *. set (pn := p_now p).
+  assert (Tail : forall b, Base s b -> (forall y, In y (dkeys (subs s)) -> In y (dkeys (subs b))) ->
+            let s' := after_pass_loop lt (pass_scan b lt pn true (p_todo p)) in
+            diverged s' = true \/ Inv (rest0 ++ ready s') s').
+  { intros b B Hsub. eapply loop_tail; try eassumption. intros y Hy. apply Hsub. now apply P4. }
+  assert (Err : forall b e, Base s b -> subs b = subs s -> is_upnp e = true ->
+            let s' := after_pass_loop lt (pass_error b lt p e) in
+            diverged s' = true \/ Inv (rest0 ++ ready s') s').
+  { intros b e B Es Eu. unfold pass_error. rewrite Eu, Hpcok. fold pn. apply Tail.
+    - destruct B. destruct (is_conn e); constructor; assumption.
+    - intros y Hy. destruct (is_conn e); sproj; now rewrite Es. }
+  assert (Grant : forall b y g, Base s (with_subs b (dset Nat.eqb (subs b) y (pn + grant_secs g)%Z)) ->
+            (forall z, In z (dkeys (subs s)) -> In z (dkeys (subs b))) ->
+            let s' := after_pass_loop lt (pass_grant b lt p y g) in
+            diverged s' = true \/ Inv (rest0 ++ ready s') s').
+  { intros b y g B Hsub. unfold pass_grant. rewrite Hpcok. apply Tail; [exact B|]. intros z Hz. sproj. apply nin_set. right. now apply Hsub. }
+  destruct st.
+  - (* the renewal request *)
+    specialize (P2 eq_refl). rewrite (dhas_in _ _ _ P2).
+    destruct rho as [m g| | |].
+    + destruct (match hdr with Some y => if Nat.eqb y x then None else Some y | None => None end) as [y|] eqn:Ey.
+      * (* a new SID *)
+        assert (Hyx : y <> x).
+        { destruct hdr as [y'|]; [|discriminate]. destruct (Nat.eqb_spec y' x); [discriminate|]. congruence. }
+        apply Grant; [|auto]. constructor; sproj; try reflexivity; try (right; exact Hbgr).
+        -- now apply nnd_set.
+        -- apply nnd_set. now apply nnd_del.
+        -- intros z Hz. apply nin_set in Hz. apply nin_set. destruct Hz as [->|Hz]; [now left|right].
+           apply nin_del; [assumption|]. split; [intros ->; contradiction|now apply S3].
+        -- intros z w Hin. apply In_dset_inv in Hin; [|now apply nnd_del]. destruct Hin as [[-> ->]|Hin]; [exact P7|].
+           apply In_ddel_inv in Hin; [|assumption]. eapply V1; eauto.
+        -- intros G z Hz. apply nin_set in Hz. destruct Hz as [->|Hz]; [left; apply nin_set; now left|].
+           apply nin_del in Hz; [|assumption]. destruct Hz as [Hzx Hz].
+           destruct (Hroute G z Hz) as [A|[[_ A]|A]]; [left; apply nin_set; now right|contradiction|now right].
+      * (* the same SID *)
+        apply Grant; [|auto]. constructor; sproj; try reflexivity; try (right; exact Hbgr).
+        -- now apply nnd_set.
+        -- now apply nnd_set.
+        -- intros z Hz. apply nin_set in Hz. apply nin_set. destruct Hz as [->|Hz]; [now left|right; now apply S3].
+        -- intros z w Hin. apply In_dset_inv in Hin; [|assumption]. destruct Hin as [[-> ->]|Hin]; [exact P7|eapply V1; eauto].
+        -- intros G z Hz. apply nin_set in Hz. destruct Hz as [->|Hz]; [left; apply nin_set; now left|].
+           destruct (Hroute G z Hz) as [A|[[_ ->]|A]]; [left; apply nin_set; now right|left; apply nin_set; now left|now right].
+    + (* refused: fresh SUBSCRIBE *)
+      cbn [after_pass_loop]. right. unfold issue. sproj.
+      eapply Inv_loop_update with (s := s) (lt := lt)
+        (k' := mkTask KLoop (PPass p StFallback (nreqs s)) false (t_waiters (tasks s lt)));
+        try eassumption; sproj; try assumption; try reflexivity.
+      * now rewrite Hkl, Hm.
+      * discriminate.
+      * intros h Hh. eapply (iv_wait _ _ H); eauto.
+      * tauto.
+      * right; tauto.
+      * lia.
+      * intros r' Hr'. apply fupd_neq. lia.
+      * intros r' Hr'. assert (r' = nreqs s) by lia. subst r'. rewrite fupd_eq. cbn. auto.
+      * intros r' Hr'. cbn in Hr'. lia.
+      * now apply nnd_del.
+      * intros z Hz. apply nin_del; [assumption|]. split; [intros ->; contradiction|now apply S3].
+      * intros z w Hin. apply In_ddel_inv in Hin; [|assumption]. eapply V1; eauto.
+      * intros p' st' r' Hpc'. sproj in Hpc'. rewrite fupd_eq in Hpc'. cbn in Hpc'. injection Hpc' as <- <- <-. sproj.
+        split; [exact P1|]. split; [discriminate|]. split; [intros _ X; apply nin_del in X; [tauto|assumption]|].
+        split; [intros _; exact P4|]. auto.
+      * intros G. split; [|intros p' r' Hpc'; discriminate].
+        intros z Hz. apply nin_del in Hz; [|assumption]. destruct Hz as [Hzx Hz].
+        destruct (Hroute G z Hz) as [A|[[_ A]|A]]; [now left|contradiction|now right; right].
+      * right. exists (nreqs s). split; [lia|]. rewrite fupd_eq. cbn. unfold is_loop. now rewrite Hkl.
+      * intros r' Hr'. assert (r' = nreqs s) by lia. subst r'. rewrite fupd_eq. cbn. unfold is_loop. now rewrite Hkl.
+    + (* unreachable *)
+      apply Err; [|reflexivity|reflexivity]. constructor; sproj; try reflexivity; auto; try (right; exact Hbgr).
+      * now apply nnd_del.
+      * intros z Hz. apply nin_del; [assumption|]. split; [intros ->; contradiction|now apply S3].
+      * intros z w Hin. apply In_ddel_inv in Hin; [|assumption]. eapply V1; eauto.
+      * intros G z Hz. apply nin_del in Hz; [|assumption]. destruct Hz as [Hzx Hz].
+        destruct (Hroute G z Hz) as [A|[[_ A]|A]]; [now left|contradiction|now right].
+    + (* another error: fresh SUBSCRIBE *)
+      cbn [after_pass_loop]. right. unfold issue. sproj.
+      eapply Inv_loop_update with (s := s) (lt := lt)
+        (k' := mkTask KLoop (PPass p StFallback (nreqs s)) false (t_waiters (tasks s lt)));
+        try eassumption; sproj; try assumption; try reflexivity.
+      * now rewrite Hkl, Hm.
+      * discriminate.
+      * intros h Hh. eapply (iv_wait _ _ H); eauto.
+      * tauto.
+      * right; tauto.
+      * lia.
+      * intros r' Hr'. apply fupd_neq. lia.
+      * intros r' Hr'. assert (r' = nreqs s) by lia. subst r'. rewrite fupd_eq. cbn. auto.
+      * intros r' Hr'. cbn in Hr'. lia.
+      * now apply nnd_del.
+      * intros z Hz. apply nin_del; [assumption|]. split; [intros ->; contradiction|now apply S3].
+      * intros z w Hin. apply In_ddel_inv in Hin; [|assumption]. eapply V1; eauto.
+      * intros p' st' r' Hpc'. sproj in Hpc'. rewrite fupd_eq in Hpc'. cbn in Hpc'. injection Hpc' as <- <- <-. sproj.
+        split; [exact P1|]. split; [discriminate|]. split; [intros _ X; apply nin_del in X; [tauto|assumption]|].
+        split; [intros _; exact P4|]. auto.
+      * intros G. split; [|intros p' r' Hpc'; discriminate].
+        intros z Hz. apply nin_del in Hz; [|assumption]. destruct Hz as [Hzx Hz].
+        destruct (Hroute G z Hz) as [A|[[_ A]|A]]; [now left|contradiction|now right; right].
+      * right. exists (nreqs s). split; [lia|]. rewrite fupd_eq. cbn. unfold is_loop. now rewrite Hkl.
+      * intros r' Hr'. assert (r' = nreqs s) by lia. subst r'. rewrite fupd_eq. cbn. unfold is_loop. now rewrite Hkl.
+  - (* the fresh SUBSCRIBE after a refused renewal *)
+    assert (Bs : Base s s).
+    { constructor; auto. intros G z Hz. destruct (Hroute G z Hz) as [A|[[A _]|A]]; [now left|discriminate|now right]. }
+    destruct rho as [m g| | |]; try (apply Err; [exact Bs|reflexivity|reflexivity]).
+    destruct hdr as [y|]; [|apply Err; [exact Bs|reflexivity|reflexivity]].
+    apply Grant; [|auto]. constructor; sproj; try reflexivity; try (right; exact Hbgr).
+    + now apply nnd_set.
+    + now apply nnd_set.
+    + intros z Hz. apply nin_set in Hz. apply nin_set. destruct Hz as [->|Hz]; [now left|right; now apply S3].
+    + intros z w Hin. apply In_dset_inv in Hin; [|assumption]. destruct Hin as [[-> ->]|Hin]; [exact P7|eapply V1; eauto].
+    + intros G z Hz. apply nin_set in Hz. destruct Hz as [->|Hz]; [left; apply nin_set; now left|].
+      destruct (Hroute G z Hz) as [A|[[A _]|A]]; [left; apply nin_set; now right|discriminate|now right].
+Qed.
+
+(* ---- generic: one task changes (no task is created) --------------------------------------------------------------- *)
+Lemma Inv_update1 pend pend' s s' t k' :
+  Inv pend s -> t < ntasks s ->
+  calls s' = calls s -> ntasks s' = ntasks s -> svcs s' = svcs s ->
+  tasks s' = fupd (tasks s) t k' -> t_kind k' = kindof s t -> pc_ok k' ->
+  (forall h, In h (t_waiters k') -> exists u, h = HStep u) ->
+  (doomed s' t -> kindof s t = KLoop) ->
+  (donep s t -> is_done k' = true) ->
+  (is_done k' = true -> ~ donep s t -> forall t' x, t' < ntasks s -> kindof s t' = KOne t x -> donep s t') ->
+  (rtask s' = rtask s \/ rtask s' = None /\ forall lt, rtask s = Some lt -> lt <> t /\ donep s lt) ->
+  (kindof s t = KLoop -> rtask s' = Some t \/ is_done k' = true) ->
+  (* requests *)
+  nreqs s <= nreqs s' -> (forall r, r < nreqs s -> reqs s' r = reqs s r) ->
+  (forall r, r < nreqs s -> q_state (reqs s r) = QPending -> q_task (reqs s r) = t -> awaits (t_pc k') r) ->
+  (forall r, nreqs s <= r < nreqs s' ->
+             q_task (reqs s' r) = t /\ awaits (t_pc k') r /\ svc_interesting (svcs s) (q_svc (reqs s' r)) = true /\
+             q_bg (reqs s' r) = is_loop k') ->
+  (forall r, awaits (t_pc k') r -> nreqs s <= r < nreqs s') ->
+  (* the rest is the caller's business *)
+  NoDup (dkeys (subs s')) /\ NoDup (dkeys (routed s')) /\ incl (dkeys (subs s')) (dkeys (routed s')) ->
+  (forall x v, In (x, v) (routed s') -> svc_interesting (svcs s) v = true) ->
+  (forall lt, rtask s' = Some lt -> pass_ok s' lt) ->
+  (g_inflight s' = false ->
+   (forall x, In x (dkeys (routed s')) -> In x (dkeys (subs s')) \/ inflight s' x \/ unsub_pending s' x) /\
+   (forall lt p r, rtask s' = Some lt -> pcof s' lt = PPass p StRenew r -> ~ doomed s' lt)) ->
+  phase_ok s' -> count_ok pend' s' ->
+  Inv pend' s'.
+Proof.
+  intros H Ht Ec En Es Et Kk Kpc Kw Kdm Kmono Kkids Krt Kloop Rle Rold Rown Rnew Rb Nsid Nsvc Kpass Kroute Kphase Kcount.
+  destruct H as [Icalls Ipc Idoom Icensus Irtask Ireq Ireqb Ireqo Ibg Isid Isvc Ipass Iroute Iphase Iwait Ibeyond Icount].
+  assert (Told : forall t', t' <> t -> tasks s' t' = tasks s t') by (intros t' Hne; rewrite Et; apply fupd_neq; congruence).
+  assert (Tnew : tasks s' t = k') by (rewrite Et; apply fupd_eq).
+  assert (Kind : forall t', kindof s' t' = kindof s t').
+  { intros t'. destruct (Nat.eq_dec t' t) as [->|Hne]; [rewrite Tnew; congruence|now rewrite Told]. }
+  assert (Hcur : cur s' = cur s) by (unfold cur; now rewrite Ec).
+  assert (Dold : forall t', t' < ntasks s -> t' <> t -> (doomed s' t' <-> doomed s t')).
+  { intros t' Ht' Hne. unfold doomed. rewrite (Told t' Hne).
+    destruct (pcof s t') as [| ? ? ? r|? ? r|? []| | |r|] eqn:Epc; try tauto;
+      (rewrite Rold; [tauto|]; eapply Ireqb; [exact Ht'|]; rewrite Epc; reflexivity). }
+  assert (Dmono : forall t', donep s t' -> donep s' t').
+  { intros t' D. destruct (Nat.eq_dec t' t) as [->|Hne]; [rewrite Tnew; now apply Kmono|now rewrite Told]. }
+  constructor; try assumption.
+  - (* calls *) unfold calls_ok in *. rewrite Ec, En. destruct (calls s) as [|c0 us] eqn:Ecalls.
+    + exfalso. destruct Icalls as (X & _). lia.
+    + destruct Icalls as (K0 & Kus & Klt & Kdone & Knd). rewrite Kind. split; [exact K0|].
+      split; [intros u Hu; rewrite Kind; now apply Kus|]. split; [exact Klt|]. split; [|exact Knd].
+      intros t' Ht' Hne. rewrite Hcur in Hne. apply Dmono. now apply Kdone.
+  - (* pc *) intros t' Ht'. rewrite En in Ht'. destruct (Nat.eq_dec t' t) as [->|Hne]; [now rewrite Tnew|]. rewrite Told by assumption. now apply Ipc.
+  - (* doom *) intros t' Ht' D. rewrite En in Ht'. rewrite Kind. destruct (Nat.eq_dec t' t) as [->|Hne]; [now apply Kdm|].
+    apply Idoom; [assumption|]. now apply Dold.
+  - (* census *) intros t' Ht'. rewrite En in Ht'. pose proof (Icensus t' Ht') as C. unfold census in *. rewrite Kind, Ec, Hcur.
+    destruct (kindof s t') eqn:Hk; try exact C.
+    + (* loop *) destruct (Nat.eq_dec t' t) as [->|Hne].
+      * rewrite Tnew. now apply Kloop.
+      * rewrite (Told t' Hne). destruct Krt as [->|[-> Kr]]; [exact C|]. destruct C as [C|C]; [|now right].
+        right. now apply Kr.
+    + (* child *) destruct C as [A B]. split; [|exact B].
+      destruct A as [A|[-> A]]; [left; now apply Dmono|].
+      destruct (Nat.eq_dec (cur s) t) as [E|Hne].
+      * destruct (is_done k') eqn:Ed.
+        -- left. apply Dmono. rewrite E in *. eapply Kkids; eauto.
+        -- right. split; [reflexivity|]. rewrite E, Tnew, Ed. discriminate.
+      * right. split; [reflexivity|]. now rewrite (Told _ Hne).
+  - (* rtask *) intros lt Hlt. rewrite En, Kind. destruct Krt as [E|[E _]]; rewrite E in Hlt; [now apply Irtask|discriminate].
+  - (* req *) intros r Hr Hq. rewrite En. destruct (Nat.lt_ge_cases r (nreqs s)) as [Hlo|Hhi].
+    + rewrite Rold in * by assumption. destruct (Ireq r Hlo Hq) as [A B]. split; [exact A|].
+      destruct (Nat.eq_dec (q_task (reqs s r)) t) as [E|Hne]; [rewrite E, Tnew; now apply Rown|now rewrite Told].
+    + destruct (Rnew r (conj Hhi Hr)) as (A & B & _). rewrite A, Tnew. split; [exact Ht|exact B].
+  - (* reqb *) intros t' Ht' r Hr. rewrite En in Ht'. destruct (Nat.eq_dec t' t) as [->|Hne].
+    + rewrite Tnew in Hr. apply Rb in Hr. lia.
+    + rewrite Told in Hr by assumption. specialize (Ireqb t' Ht' r Hr). lia.
+  - (* reqo *) intros t' Ht' r Hr. rewrite En in Ht'. destruct (Nat.eq_dec t' t) as [->|Hne].
+    + rewrite Tnew in Hr. now destruct (Rnew r (Rb r Hr)).
+    + rewrite Told in Hr by assumption. rewrite Rold by (eapply Ireqb; eauto). now apply Ireqo.
+  - (* bg *) intros r Hr. rewrite En. destruct (Nat.lt_ge_cases r (nreqs s)) as [Hlo|Hhi].
+    + rewrite Rold by assumption. destruct (Ibg r Hlo) as [A B]. split; [|exact B]. rewrite A. unfold is_loop. now rewrite Kind.
+    + destruct (Rnew r (conj Hhi Hr)) as (A & _ & _ & B). rewrite A, Tnew. split; [exact B|exact Ht].
+  - (* svc *) rewrite Es. split; [exact Nsvc|]. intros r Hr. destruct (Nat.lt_ge_cases r (nreqs s)) as [Hlo|Hhi].
+    + rewrite Rold by assumption. now apply Isvc.
+    + now destruct (Rnew r (conj Hhi Hr)) as (_ & _ & X & _).
+  - (* wait *) intros t' Ht' h Hh. rewrite En in Ht'. destruct (Nat.eq_dec t' t) as [->|Hne].
+    + rewrite Tnew in Hh. now apply Kw.
+    + rewrite Told in Hh by assumption. eapply Iwait; eauto.
+  - (* beyond *) intros t' Ht'. rewrite En in Ht'. rewrite Told by lia. now apply Ibeyond.
+Qed.
+
+(* ---- gather: one child task per SID ------------------------------------------------------------------------------- *)
+Definition spawn_kids (s : state) (c : tid) (sids : list sid) : state :=
+  fold_left (fun s x => spawn s (KOne c x)) sids s.
+
+Lemma spawn_kids_spec c sids : forall s,
+  let s' := spawn_kids s c sids in
+  ntasks s' = ntasks s + length sids /\
+  ready s' = ready s ++ map HStep (seq (ntasks s) (length sids)) /\
+  (forall t, t < ntasks s -> tasks s' t = tasks s t) /\
+  (forall i, i < length sids -> tasks s' (ntasks s + i) = mkTask (KOne c (nth i sids 0)) PStart false []) /\
+  (forall t, ntasks s + length sids <= t -> tasks s' t = tasks s t) /\
+  now s' = now s /\ svcs s' = svcs s /\ subs s' = subs s /\ routed s' = routed s /\ avail s' = avail s /\
+  evlog s' = evlog s /\ rtask s' = rtask s /\ calls s' = calls s /\ reqs s' = reqs s /\ nreqs s' = nreqs s /\
+  pub s' = pub s /\ nsid s' = nsid s /\ lapsed s' = lapsed s /\ diverged s' = diverged s /\
+  g_overdue s' = g_overdue s /\ g_inflight s' = g_inflight s /\ g_maxdur s' = g_maxdur s.
+Proof.
+  induction sids as [|x sids IH]; intros s; cbn [spawn_kids fold_left length].
+  - cbv zeta. rewrite Nat.add_0_r, app_nil_r. repeat split; auto. intros i Hi. lia.
+  - specialize (IH (spawn s (KOne c x))). cbv zeta in *. fold (spawn_kids (spawn s (KOne c x)) c sids).
+    set (s1 := spawn s (KOne c x)) in *.
+    assert (N1 : ntasks s1 = S (ntasks s)) by reflexivity.
+    assert (R1 : ready s1 = ready s ++ [HStep (ntasks s)]) by reflexivity.
+    assert (T1 : forall t, t < ntasks s -> tasks s1 t = tasks s t) by (intros t Ht; subst s1; unfold spawn; sproj; apply fupd_neq; lia).
+    assert (T2 : tasks s1 (ntasks s) = mkTask (KOne c x) PStart false []) by (subst s1; unfold spawn; sproj; apply fupd_eq).
+    assert (T3 : forall t, S (ntasks s) <= t -> tasks s1 t = tasks s t) by (intros t Ht; subst s1; unfold spawn; sproj; apply fupd_neq; lia).
+    destruct IH as (A1 & A2 & A3 & A4 & A4' & A5). rewrite N1 in *. rewrite R1 in A2.
+    split; [rewrite A1; lia|]. split.
+    { rewrite A2. cbn [seq map]. rewrite <- app_assoc. reflexivity. }
+    split.
+    { intros t Ht. rewrite A3 by lia. now apply T1. }
+    split.
+    { intros i Hi. destruct i as [|i].
+      - rewrite Nat.add_0_r, A3 by lia. exact T2.
+      - specialize (A4 i ltac:(lia)). replace (ntasks s + S i) with (S (ntasks s) + i) by lia. rewrite A4. reflexivity. }
+    split.
+    { intros t Ht. rewrite A4' by lia. apply T3. lia. }
+    exact A5.
+Qed.
+
+Lemma filter_len_le {A} (f : A -> bool) l : length (filter f l) <= length l.
+Proof. induction l as [|a l IH]; cbn; [lia|]. destruct (f a); cbn; lia. Qed.
+
+Lemma in_nth_ex (l : list sid) (x : sid) : In x l -> exists i, i < length l /\ nth i l (0 : sid) = x.
+Proof. intros H. apply (In_nth l x 0) in H. exact H. Qed.
+
+Lemma Inv_gather pend pend' s b c sids re :
+  Inv pend s -> calls s <> [] -> cur s = c -> ~ donep s c ->
+  (forall n re', pcof s c <> PUnsubGather n re') ->
+  (forall r, awaits (pcof s c) r -> q_state (reqs s r) <> QPending) ->
+  tasks b = tasks s -> ntasks b = ntasks s -> calls b = calls s -> svcs b = svcs s -> reqs b = reqs s ->
+  nreqs b = nreqs s -> routed b = routed s -> subs b = [] -> rtask b = None ->
+  (g_inflight b = false -> g_inflight s = false) ->
+  (forall lt, rtask s = Some lt -> donep s lt) ->
+  pc_ok (mkTask (kindof s c) (PUnsubGather (length sids) re) false []) ->
+  (g_inflight b = false -> forall x, In x (dkeys (routed s)) -> In x sids) ->
+  (forall c', nchild pend' c' = nchild pend c') ->
+  sids <> [] -> (forall a, kindof s c = KSub a -> g_inflight b = false) ->
+  (kindof s c = KUnsub -> length (calls s) = 2) ->
+  Inv pend' (set_pc (spawn_kids b c sids) c (PUnsubGather (length sids) re)).
+Proof.
+  intros H Hc Hcur Hnd Hng Hnp Bt Bn Bc Bs Br Bnr Bro Bsu Brt Bg Hld Kpc Hsids Hch Hne Hgs Hlen.
+  destruct (spawn_kids_spec c sids b) as (A1 & A2 & A3 & A4 & A4' & _ & A5 & A6 & A7 & _ & _ & A8 & A9 & A10 & A11 & _ & _ & _ & _ & _ & A12 & _).
+  rewrite Bn in *. rewrite Bt in *.
+  set (N := ntasks s) in *. set (n := length sids) in *.
+  set (s' := set_pc (spawn_kids b c sids) c (PUnsubGather n re)).
+  pose proof H as H0.
+  destruct H as [Icalls Ipc Idoom Icensus Irtask Ireq Ireqb Ireqo Ibg Isid Isvc Ipass Iroute Iphase Iwait Ibeyond Icount].
+  assert (Hcin : In c (calls s)) by (rewrite <- Hcur; now apply cur_in).
+  assert (HcN : c < N).
+  { unfold calls_ok in Icalls. destruct (calls s); [congruence|]. destruct Icalls as (_ & _ & X & _). now apply X. }
+  destruct (call_kind s c Icalls Hcin) as [Hcl Hck].
+  assert (Hmust : t_must (tasks s c) = false).
+  { destruct (t_must (tasks s c)) eqn:E; [|reflexivity]. exfalso. apply Hcl. apply Idoom; [exact HcN|]. now left. }
+  assert (Tc : tasks s' c = mkTask (kindof s c) (PUnsubGather n re) false (t_waiters (tasks s c))).
+  { subst s'. sproj. rewrite fupd_eq, A3 by exact HcN. now rewrite Hmust. }
+  assert (Told : forall t, t < N -> t <> c -> tasks s' t = tasks s t).
+  { intros t Ht Hne'. subst s'. sproj. rewrite fupd_neq by congruence. now apply A3. }
+  assert (Tkid : forall i, i < n -> tasks s' (N + i) = mkTask (KOne c (nth i sids 0)) PStart false []).
+  { intros i Hi. subst s'. sproj. rewrite fupd_neq by lia. now apply A4. }
+  assert (Ns' : ntasks s' = N + n) by (subst s'; sproj; exact A1).
+  assert (Cs' : calls s' = calls s) by (subst s'; sproj; congruence).
+  assert (Hcur' : cur s' = c) by (unfold cur; rewrite Cs'; exact Hcur).
+  assert (Kold : forall t, t < N -> kindof s' t = kindof s t).
+  { intros t Ht. destruct (Nat.eq_dec t c) as [->|X]; [now rewrite Tc|now rewrite Told]. }
+  assert (Split : forall t, t < N + n -> t < N \/ exists i, i < n /\ t = N + i).
+  { intros t Ht. destruct (Nat.lt_ge_cases t N); [now left|right]. exists (t - N). split; lia. }
+  destruct Icount as [C1 C2]. specialize (C2 Hc). rewrite Hcur in C2. specialize (C2 Hnd).
+  assert (Hnokid : (forall t, t < N -> is_kid c (tasks s t) = false) /\ nchild pend c = 0).
+  { destruct (pcof s c) eqn:E; try exact C2. now destruct (Hng nleft re0). }
+  destruct Hnokid as [Hnokid Hnch].
+  assert (Rs' : reqs s' = reqs s) by (subst s'; sproj; congruence).
+  assert (NRs' : nreqs s' = nreqs s) by (subst s'; sproj; congruence).
+  assert (Dold : forall t, t < N -> t <> c -> (doomed s' t <-> doomed s t)).
+  { intros t Ht X. unfold doomed. rewrite (Told t Ht X), Rs'. tauto. }
+  constructor.
+  - (* calls *) unfold calls_ok in *. rewrite Cs', Ns'. destruct (calls s) as [|c0 us] eqn:Ecalls; [congruence|].
+    destruct Icalls as (K0 & Kus & Klt & Kdone & Knd).
+    split; [rewrite Kold by (apply Klt; now left); exact K0|].
+    split; [intros u Hu; rewrite Kold by (apply Klt; now right); now apply Kus|].
+    split; [intros t Ht; specialize (Klt t Ht); lia|]. split; [|exact Knd].
+    intros t Ht X. rewrite Hcur' in X. rewrite Told; [apply Kdone; [exact Ht|congruence]|now apply Klt|exact X].
+  - (* pc *) intros t Ht. rewrite Ns' in Ht. destruct (Split t Ht) as [Hlo|(i & Hi & ->)].
+    + destruct (Nat.eq_dec t c) as [->|X]; [rewrite Tc; exact Kpc|rewrite Told by assumption; now apply Ipc].
+    + rewrite Tkid by exact Hi. exact I.
+  - (* doom *) intros t Ht D. rewrite Ns' in Ht. destruct (Split t Ht) as [Hlo|(i & Hi & ->)].
+    + destruct (Nat.eq_dec t c) as [->|X].
+      * exfalso. unfold doomed in D. rewrite Tc in D. cbn in D. intuition discriminate.
+      * rewrite Kold by exact Hlo. apply Idoom; [exact Hlo|]. now apply Dold.
+    + exfalso. unfold doomed in D. rewrite Tkid in D by exact Hi. cbn in D. intuition discriminate.
+  - (* census *) intros t Ht. rewrite Ns' in Ht. unfold census. rewrite Cs', Hcur'.
+    destruct (Split t Ht) as [Hlo|(i & Hi & ->)].
+    + rewrite Kold by exact Hlo. pose proof (Icensus t Hlo) as C. unfold census in C.
+      destruct (kindof s t) eqn:Hk; try exact C.
+      * right. assert (t <> c) by (intros ->; congruence). rewrite Told by assumption.
+        destruct C as [C|C]; [now apply Hld|exact C].
+      * destruct C as [[C|[C1' C2']] C3]; split; try exact C3.
+        -- left. assert (t <> c) by (intros ->; now destruct (Hck parent x)). now rewrite Told.
+        -- exfalso. specialize (Hnokid t Hlo). unfold is_kid in Hnokid. rewrite Hk, C1', Hcur, Nat.eqb_refl in Hnokid. discriminate.
+    + rewrite Tkid by exact Hi. cbn [t_kind]. split; [|exact Hcin]. right. split; [reflexivity|]. rewrite Tc. cbn. discriminate.
+  - (* rtask *) intros lt Hlt. subst s'. sproj in Hlt. congruence.
+  - (* req *) intros r Hr Hq. rewrite NRs' in Hr. rewrite Rs' in *. destruct (Ireq r Hr Hq) as [A B]. rewrite Ns'. split; [lia|].
+    destruct (Nat.eq_dec (q_task (reqs s r)) c) as [E|X]; [rewrite E in B; now destruct (Hnp r B)|now rewrite Told].
+  - (* reqb *) intros t Ht r Hr. rewrite Ns' in Ht. rewrite NRs'. destruct (Split t Ht) as [Hlo|(i & Hi & ->)].
+    + destruct (Nat.eq_dec t c) as [->|X]; [rewrite Tc in Hr; destruct Hr|]. rewrite Told in Hr by assumption. eapply Ireqb; eauto.
+    + rewrite Tkid in Hr by exact Hi. destruct Hr.
+  - (* reqo *) intros t Ht r Hr. rewrite Ns' in Ht. rewrite Rs'. destruct (Split t Ht) as [Hlo|(i & Hi & ->)].
+    + destruct (Nat.eq_dec t c) as [->|X]; [rewrite Tc in Hr; destruct Hr|]. rewrite Told in Hr by assumption. eapply Ireqo; eauto.
+    + rewrite Tkid in Hr by exact Hi. destruct Hr.
+  - (* bg *) intros r Hr. rewrite NRs' in Hr. rewrite Rs', Ns'. destruct (Ibg r Hr) as [A B]. split; [|lia].
+    rewrite A. unfold is_loop. now rewrite Kold.
+  - (* sid *) subst s'. sproj. rewrite A6, A7, Bsu, Bro. destruct Isid as (_ & X & _). repeat split; [constructor|exact X|intros y []].
+  - (* svc *) subst s'. sproj. rewrite A5, A7, A10, A11, Bs, Bro, Br, Bnr. exact Isvc.
+  - (* pass *) intros lt Hlt. subst s'. sproj in Hlt. congruence.
+  - (* route *) intros G. assert (G' : g_inflight b = false) by (subst s'; sproj in G; congruence). split.
+    + intros x Hx. right; right. right. assert (Hx' : In x (dkeys (routed s))) by (subst s'; sproj in Hx; congruence).
+      destruct (in_nth_ex sids x (Hsids G' x Hx')) as (i & Hi & Ei).
+      exists (N + i). rewrite Ns', Hcur', Tkid by exact Hi. cbn [t_kind t_pc]. split; [lia|]. split; [rewrite <- Ei; reflexivity|reflexivity].
+    + intros lt p r Hlt. subst s'. sproj in Hlt. congruence.
+  - (* phase *) unfold phase_ok. rewrite Cs'. destruct (calls s) eqn:Ecalls; [congruence|]. cbv zeta. rewrite Hcur', Tc. cbn [t_kind t_pc].
+    assert (X : subs s' = [] /\ rtask s' = None) by (subst s'; sproj; split; congruence).
+    unfold pc_ok in Kpc. cbn [t_kind t_pc] in Kpc. destruct (kindof s c) eqn:Ek; destruct re; try contradiction.
+    + split; [|exact X]. subst s'. sproj. rewrite A12. eapply Hgs; eauto.
+    + split; [|exact X]. exact (Hlen eq_refl).
+  - (* wait *) intros t Ht h Hh. rewrite Ns' in Ht. destruct (Split t Ht) as [Hlo|(i & Hi & ->)].
+    + destruct (Nat.eq_dec t c) as [->|X]; [rewrite Tc in Hh; cbn in Hh|rewrite Told in Hh by assumption]; eapply Iwait; eauto.
+    + rewrite Tkid in Hh by exact Hi. destruct Hh.
+  - (* beyond *) intros t Ht. rewrite Ns' in Ht. subst s'. sproj. rewrite fupd_neq by lia. rewrite A4' by lia. apply Ibeyond. lia.
+  - (* count *) split.
+    + intros p Hp. rewrite Hch in Hp. specialize (C1 p Hp). lia.
+    + intros _ _. rewrite Hcur', Tc. cbn [t_pc]. rewrite Hch, Hnch, Nat.add_0_r.
+      unfold nlive. rewrite Ns', seq_app, filter_app, app_length. cbn [Nat.add].
+      rewrite (filter_ext_in _ (fun _ => false)).
+      * assert (Z : forall l : list nat, length (filter (fun _ => false) l) = 0) by (induction l; auto).
+        rewrite Z. cbn [Nat.add]. etransitivity; [apply filter_len_le|]. now rewrite seq_length.
+      * intros t Ht. apply in_seq in Ht. unfold live_kid.
+        destruct (Nat.eq_dec t c) as [->|X].
+        -- rewrite Tc. unfold is_kid. cbn [t_kind]. destruct (kindof s c) eqn:E; try reflexivity. now destruct (Hck parent x).
+        -- rewrite Told by lia. rewrite Hnokid by lia. reflexivity.
+Qed.
+
+(* ---- a user call ends with nothing left subscribed ---------------------------------------------------------------- *)
+Lemma Inv_call_finish pend pend' s b c st :
+  Inv pend s -> calls s <> [] -> cur s = c -> ~ donep s c ->
+  tasks b = tasks s -> ntasks b = ntasks s -> calls b = calls s -> svcs b = svcs s -> reqs b = reqs s ->
+  nreqs b = nreqs s -> routed b = routed s -> subs b = [] -> rtask b = None ->
+  (forall a, kindof s c = KSub a -> g_inflight b = false) ->
+  (forall lt, rtask s = Some lt -> donep s lt) ->
+  (forall t' x, t' < ntasks s -> kindof s t' = KOne c x -> donep s t') ->
+  (forall r, awaits (pcof s c) r -> q_state (reqs s r) <> QPending) ->
+  match kindof s c, st with
+  | KSub _, SExc e => is_upnp e = true
+  | KUnsub, SRet None => True
+  | _, _ => False
+  end ->
+  (g_inflight b = false -> routed s = []) ->
+  (forall c', nchild pend' c' = nchild pend c') ->
+  Inv pend' (with_ready (with_tasks b (fupd (tasks b) c (mkTask (kindof s c) (PDone st) false [])) (ntasks b))
+                        (ready b ++ t_waiters (tasks b c))).
+Proof.
+  intros H Hc Hcur Hnd Bt Bn Bc Bs Br Bnr Bro Bsu Brt Hgs Hld Hkids Hnp Hst Hro Hch.
+  pose proof H as H0.
+  destruct H as [Icalls Ipc Idoom Icensus Irtask Ireq Ireqb Ireqo Ibg Isid Isvc Ipass Iroute Iphase Iwait Ibeyond Icount].
+  assert (Hcin : In c (calls s)) by (rewrite <- Hcur; now apply cur_in).
+  assert (HcN : c < ntasks s).
+  { unfold calls_ok in Icalls. destruct (calls s); [congruence|]. destruct Icalls as (_ & _ & X & _). now apply X. }
+  destruct (call_kind s c Icalls Hcin) as [Hcl Hck].
+  set (s' := with_ready _ _).
+  assert (Tc : tasks s' c = mkTask (kindof s c) (PDone st) false []) by (subst s'; sproj; rewrite Bt; apply fupd_eq).
+  assert (Told : forall t, t <> c -> tasks s' t = tasks s t) by (intros t X; subst s'; sproj; rewrite Bt; apply fupd_neq; congruence).
+  assert (Alld : forall t, t < ntasks s -> donep s' t).
+  { intros t Ht. destruct (Nat.eq_dec t c) as [->|X]; [now rewrite Tc|]. rewrite Told by exact X.
+    pose proof (Icensus t Ht) as C. unfold census in C. unfold calls_ok in Icalls.
+    destruct (calls s) as [|c0 us] eqn:Ecalls; [congruence|]. destruct Icalls as (_ & _ & _ & Kdone & _).
+    destruct (kindof s t) eqn:Hk.
+    - apply Kdone; [|congruence]. cbn in C. injection C as ->. now left.
+    - apply Kdone; [|congruence]. now right.
+    - destruct C as [C|C]; [now apply Hld|exact C].
+    - destruct C as [[C|[C1 C2]] _]; [exact C|]. eapply Hkids; [exact Ht|]. rewrite Hk, C1, Hcur. reflexivity. }
+  eapply Inv_update1 with (s := s) (t := c) (k' := mkTask (kindof s c) (PDone st) false []);
+    try eassumption; subst s'; sproj; try assumption; try reflexivity; try congruence.
+  - unfold pc_ok. cbn [t_kind t_pc]. destruct (kindof s c); destruct st as [[?|]|?|]; try contradiction; auto.
+  - intros h [].
+  - intros D. exfalso. unfold doomed in D. sproj in D. rewrite fupd_eq in D. cbn in D. intuition discriminate.
+  - intros _ _. exact Hkids.
+  - right. split; [exact Brt|]. intros lt Hlt. split; [|now apply Hld]. intros ->. destruct (Irtask c Hlt). contradiction.
+  - rewrite Bnr. lia.
+  - intros r Hr Hq E. exfalso. destruct (Ireq r Hr Hq) as [_ A]. rewrite E in A. now apply (Hnp r).
+  - intros r Hr. rewrite Bnr in Hr. lia.
+  - intros r [].
+  - rewrite Bsu, Bro. destruct Isid as (_ & X & _). repeat split; [constructor|exact X|intros y []].
+  - rewrite Bro. now destruct Isvc.
+  - intros G. rewrite Bro, (Hro G). split; [intros x []|]. intros lt p r Hlt. congruence.
+  - (* phase *) unfold phase_ok. sproj. rewrite Bc. destruct (calls s) eqn:Ecalls; [congruence|]. cbv zeta.
+    match goal with |- context [cur ?st] => replace (cur st) with c by (unfold cur; sproj; rewrite Bc, <- Ecalls; symmetry; exact Hcur) end.
+    sproj. rewrite Bt, fupd_eq. cbn [t_kind t_pc].
+    assert (AD : all_done (with_ready (with_tasks b (fupd (tasks s) c (mkTask (kindof s c) (PDone st) false [])) (ntasks b))
+                                      (ready b ++ t_waiters (tasks s c)))).
+    { intros t' Ht'. sproj in Ht'. rewrite Bn in Ht'. specialize (Alld t' Ht'). sproj in Alld. rewrite Bt in Alld. exact Alld. }
+    destruct (kindof s c) eqn:Ek; destruct st as [[?|]|e|]; try contradiction.
+    + rewrite Bsu, Brt, Bro. pose proof (Hgs _ eq_refl) as G. rewrite (Hro G). auto.
+    + rewrite Bsu, Brt, Bro. repeat split; auto.
+  - (* count *) destruct Icount as [C1 C2]. split.
+    + intros p Hp. rewrite Hch in Hp. rewrite Bn. now apply C1.
+    + intros _ X. exfalso. apply X.
+      match goal with |- context [cur ?st] => replace (cur st) with c by (unfold cur; sproj; rewrite Bc; symmetry; exact Hcur) end.
+      sproj. rewrite fupd_eq. reflexivity.
 Qed.
